@@ -174,6 +174,7 @@ type VarDecl struct {
 	Tys   []Type
 	Vals  []Expr // empty for DeclVarType; one multi-valued call allowed
 	Form  int
+	Err   bool // a declared string type spelled "error"
 }
 type Assign struct {
 	Names []string
@@ -247,11 +248,13 @@ type Write struct {
 type Param struct {
 	Name string
 	Ty   Type
+	Err  bool // a string type spelled "error"
 }
 type FuncDef struct {
 	Name     string
 	Params   []Param
 	Rets     []Type
+	RetErr   []bool // per return value: a string type spelled "error" (nil = none)
 	Body     []Stmt
 	NoParens bool // "func f {" for zero parameters
 }
